@@ -8,6 +8,7 @@
 package layers
 
 import (
+	"errors"
 	"fmt"
 	"runtime"
 
@@ -281,6 +282,9 @@ const (
 
 // Decode a raw v4 or v6 IP packet.
 func decodeIPv4or6(data []byte, p gopacket.PacketBuilder) error {
+	if len(data) == 0 {
+		return errors.New("IP packet too small")
+	}
 	version := data[0] >> 4
 	switch version {
 	case 4:
